@@ -33,6 +33,10 @@ if go test -vet=off -count=1 -run "^($fn)\$" "./$pkg/" >/tmp/seed_demo_mut.log 2
 fi
 echo "step3 ok: demo fails with the patch"
 rm -f "$wt/$pkg/zz_seeded_demo_test.go"
+if [ -n "${SEEDCONFIRM_SKIPSUITE:-}" ]; then
+  # re-confirmation of a change whose step 4 was confirmed when it was first processed
+  echo "step4: skipped (SEEDCONFIRM_SKIPSUITE)"; git checkout -q -- .; git clean -fdq; echo "CONFIRMED"; exit 0
+fi
 go test -mod=mod -json -vet=off -count=1 -timeout 25m ./... > /tmp/seed_base.json 2>/dev/null
 res=$(python3 - <<'PY'
 import json
